@@ -123,6 +123,10 @@ fn case(rng: &mut Rng, pools: &mut Pools, rep: &mut Report, case_no: u64) {
                 rep.metric("monitored_calls", 1);
             }
             out.panic
+        } else if rng.chance(1, 12) {
+            // the call is made by a cleanup guard while its thread unwinds from something else
+            rep.metric("calls_made_from_a_destructor_during_unwinding", 1);
+            inst.run_quiet_during_unwind(m)
         } else {
             inst.run_quiet(m)
         };
